@@ -210,25 +210,28 @@ Proof.
     exists (S m). split; [lia | exact Hks].
 Qed.
 
-Lemma ok1_tolerance : forall tol w dep k, ok1 tol (w, dep) k = true -> 0 < w ->
-  Rabs (omega k dep - w) < tol * w.
+Lemma ok1_tolerance : forall tol w dep ok, ok1 tol (w, dep) ok = true -> 0 < w ->
+  exists k om, ok = Some k /\ omega k dep = Some om /\ Rabs (om - w) < tol * w.
 Proof.
-  intros tol w dep k H Hw. unfold ok1 in H.
+  intros tol w dep ok H Hw. unfold ok1 in H.
+  destruct ok as [k|]; [|discriminate].
+  destruct (omega k dep) as [om|] eqn:Hom; [|discriminate].
   destruct (Req_EM_T w 0); [discriminate|].
-  destruct (Rlt_dec (Rabs (omega k dep - w) / w) tol) as [Hlt|]; [|discriminate].
+  destruct (Rlt_dec (Rabs (om - w) / w) tol) as [Hlt|]; [|discriminate].
+  exists k, om. split; [reflexivity|]. split; [exact Hom|].
   apply (Rmult_lt_compat_r w) in Hlt; [|assumption].
   unfold Rdiv in Hlt. rewrite Rmult_assoc, Rinv_l, Rmult_1_r in Hlt by lra. exact Hlt.
 Qed.
 
-Lemma ok_all_tolerance : forall tol ps ks w dep k,
-  ok_all tol ps ks = true -> In ((w, dep), k) (combine ps ks) -> 0 < w ->
-  Rabs (omega k dep - w) < tol * w.
+Lemma ok_all_tolerance : forall tol ps ks w dep ok,
+  ok_all tol ps ks = true -> In ((w, dep), ok) (combine ps ks) -> 0 < w ->
+  exists k om, ok = Some k /\ omega k dep = Some om /\ Rabs (om - w) < tol * w.
 Proof.
-  intros tol ps ks w dep k H Hin Hw. unfold ok_all in H. rewrite forallb_forall in H.
+  intros tol ps ks w dep ok H Hin Hw. unfold ok_all in H. rewrite forallb_forall in H.
   specialize (H _ Hin). cbn [fst snd] in H. apply ok1_tolerance; assumption.
 Qed.
 
-Lemma step_all_map : forall ps (g : R * depth -> R),
+Lemma step_all_map : forall ps (g : R * depth -> option R),
   step_all ps (map g ps) = map (fun p => newton1 p (g p)) ps.
 Proof.
   intros. unfold step_all.
@@ -237,7 +240,7 @@ Proof.
   rewrite H, map_map. reflexivity.
 Qed.
 
-Lemma iter_step_all_map : forall m ps (g : R * depth -> R),
+Lemma iter_step_all_map : forall m ps (g : R * depth -> option R),
   iter m (step_all ps) (map g ps) = map (fun p => iter m (newton1 p) (g p)) ps.
 Proof.
   induction m as [|m IH]; intros ps g; cbn [iter]; [reflexivity|].
@@ -245,13 +248,13 @@ Proof.
 Qed.
 
 (* exit through the tolerance test: every point has had the same number m >= 1 of Newton steps
-   from its own first guess and meets the relative tolerance *)
+   from its own first guess, is a number (not NaN), and meets the relative tolerance *)
 Lemma kinv_converged : forall ps ks,
   kinv ps = Converged ks ->
   (exists m, (1 <= m <= 10)%nat /\ ks = map (fun p => iter m (newton1 p) (first_guess p)) ps) /\
   length ks = length ps /\
   forall i w dep, (i < length ps)%nat -> nth i ps (0, Deep) = (w, dep) -> 0 < w ->
-    Rabs (omega (nth i ks 0) dep - w) < 1 / 1000 * w.
+    exists k om, nth i ks None = Some k /\ omega k dep = Some om /\ Rabs (om - w) < 1 / 1000 * w.
 Proof.
   intros ps ks H. unfold kinv in H.
   destruct (newton_converged _ _ _ _ _ H) as [Hok [m [Hm Hks]]].
@@ -260,13 +263,13 @@ Proof.
   split; [exists m; split; assumption|]. split; [assumption|].
   intros i w dep Hi Hp Hw. fold tolerance.
   apply (ok_all_tolerance tolerance ps ks); [assumption | | assumption].
-  rewrite <- Hp. rewrite <- (combine_nth ps ks i (0, Deep) 0) by (symmetry; assumption).
+  rewrite <- Hp. rewrite <- (combine_nth ps ks i (0, Deep) None) by (symmetry; assumption).
   apply nth_In. rewrite combine_length. lia.
 Qed.
 
 Lemma kinv_exit_tolerance : forall ps ks i w dep,
   kinv ps = Converged ks -> (i < length ps)%nat -> nth i ps (0, Deep) = (w, dep) -> 0 < w ->
-  Rabs (omega (nth i ks 0) dep - w) < 1 / 1000 * w.
+  exists k om, nth i ks None = Some k /\ omega k dep = Some om /\ Rabs (om - w) < 1 / 1000 * w.
 Proof. intros ps ks i w dep H. destruct (kinv_converged ps ks H) as [_ [_ H3]]. apply H3. Qed.
 
 (* ---- all_some ---- *)
@@ -290,7 +293,9 @@ Lemma peak_wavenumber_dispersion : forall f b ks,
   forall i e rd, (i < length b)%nat -> nth i b ([], RawNaN) = (e, rd) ->
     exists kp, peak_index 0 None f e = Some kp /\
       let w := nth kp f 0 * 2 * PI in
-      0 < w -> Rabs (omega (nth i ks 0) (depth_of rd) - w) < 1 / 1000 * w.
+      0 < w ->
+      exists k om, nth i ks None = Some k /\ omega k (depth_of rd) = Some om /\
+                   Rabs (om - w) < 1 / 1000 * w.
 Proof.
   intros f b ks H. unfold peak_wavenumber in H.
   destruct (all_some (map (fun p => peak_w f (fst p)) b)) as [ws|] eqn:Hws; [|discriminate].
@@ -317,14 +322,17 @@ Proof.
 Qed.
 
 (* missing depth means deep water; in deep water the first guess w^2/g is the exact root *)
-Lemma nan_depth_is_deep : forall k, omega k (depth_of RawNaN) = sqrt (grav * k).
+Lemma nan_depth_is_deep : forall k, omega k (depth_of RawNaN) = osqrt (grav * k).
 Proof. reflexivity. Qed.
 
-Lemma deep_first_guess_exact : forall w, 0 < w -> omega (first_guess (w, Deep)) Deep = w.
+Lemma deep_first_guess_exact : forall w, 0 < w ->
+  first_guess (w, Deep) = Some (w * w / grav) /\ omega (w * w / grav) Deep = Some w.
 Proof.
-  intros w Hw. unfold first_guess, omega. destruct (Rgt_dec w 0); [|lra].
+  intros w Hw. unfold first_guess, omega, osqrt. destruct (Rgt_dec w 0); [|lra].
+  split; [reflexivity|].
   replace (grav * (w * w / grav)) with (w * w) by (unfold grav; field).
-  apply sqrt_square. lra.
+  assert (0 < w * w) by (apply Rmult_lt_0_compat; assumption).
+  destruct (Rlt_dec (w * w) 0); [lra|]. f_equal. apply sqrt_square. lra.
 Qed.
 
 (* ------------------------------------------------------------------ *)
@@ -365,36 +373,49 @@ Qed.
 
 (* deep water: the first guess is the exact root, one Newton step leaves it unchanged and the loop
    exits through the tolerance test *)
-Lemma deep_newton_fixed : forall w, 0 < w ->
-  newton1 (w, Deep) (first_guess (w, Deep)) = first_guess (w, Deep).
+Lemma deep_root_pos : forall w, 0 < w -> 0 < w * w / grav.
 Proof.
-  intros w Hw. unfold newton1. rewrite deep_first_guess_exact by assumption.
-  unfold Rminus at 2. rewrite Rplus_opp_r. unfold Rdiv at 1. rewrite Rmult_0_l. lra.
+  intros w Hw. apply Rdiv_lt_0_compat; [apply Rmult_lt_0_compat; assumption | unfold grav; lra].
+Qed.
+
+Lemma deep_newton_fixed : forall w, 0 < w ->
+  newton1 (w, Deep) (Some (w * w / grav)) = Some (w * w / grav).
+Proof.
+  intros w Hw. unfold newton1.
+  destruct (deep_first_guess_exact w Hw) as [_ Hom]. rewrite Hom.
+  pose proof (deep_root_pos w Hw) as Hk.
+  unfold dwdk. destruct (Req_EM_T (w * w / grav) 0); [lra|].
+  assert (0 < 1 / 2 * w / (w * w / grav)) by (apply Rdiv_lt_0_compat; lra).
+  destruct (Req_EM_T (1 / 2 * w / (w * w / grav)) 0); [lra|].
+  f_equal. unfold Rminus at 2. rewrite Rplus_opp_r. unfold Rdiv at 2. rewrite Rmult_0_l. lra.
 Qed.
 
 Definition all_deep (ps : list (R * depth)) : Prop := forall p, In p ps -> snd p = Deep /\ 0 < fst p.
 
 Lemma deep_converges : forall ps, all_deep ps ->
-  kinv ps = Converged (map (fun p => fst p * fst p / grav) ps).
+  kinv ps = Converged (map (fun p => Some (fst p * fst p / grav)) ps).
 Proof.
   intros ps H. unfold kinv. cbn [newton].
-  assert (Hstep : step_all ps (map first_guess ps) = map first_guess ps).
+  assert (Hfg : map first_guess ps = map (fun p => Some (fst p * fst p / grav)) ps).
+  { apply map_ext_in. intros [w d] Hin. destruct (H _ Hin) as [Hd Hw]. cbn in Hd, Hw. subst d.
+    apply (deep_first_guess_exact w Hw). }
+  rewrite Hfg.
+  assert (Hstep : step_all ps (map (fun p => Some (fst p * fst p / grav)) ps)
+                  = map (fun p => Some (fst p * fst p / grav)) ps).
   { rewrite step_all_map. apply map_ext_in. intros [w d] Hin.
-    destruct (H _ Hin) as [Hd Hw]. cbn in Hd, Hw. subst d. apply deep_newton_fixed; assumption. }
+    destruct (H _ Hin) as [Hd Hw]. cbn in Hd, Hw. subst d. cbn [fst]. apply deep_newton_fixed; assumption. }
   rewrite Hstep.
-  assert (Hok : ok_all tolerance ps (map first_guess ps) = true).
+  assert (Hok : ok_all tolerance ps (map (fun p => Some (fst p * fst p / grav)) ps) = true).
   { unfold ok_all. apply forallb_forall. intros [[w d] k] Hin.
-    assert (Hk : k = first_guess (w, d)).
+    assert (Hk : k = Some (w * w / grav)).
     { clear -Hin. induction ps as [|q ps IH]; [contradiction|]. cbn in Hin.
       destruct Hin as [E|Hin]; [inversion E; reflexivity | apply IH; assumption]. }
     destruct (H _ (in_combine_l _ _ _ _ Hin)) as [Hd Hw]. cbn in Hd, Hw. subst d k.
-    cbn [fst snd]. unfold ok1. destruct (Req_EM_T w 0); [lra|].
-    rewrite deep_first_guess_exact by assumption.
+    cbn [fst snd]. unfold ok1. destruct (deep_first_guess_exact w Hw) as [_ Hom]. rewrite Hom.
+    destruct (Req_EM_T w 0); [lra|].
     unfold Rminus. rewrite Rplus_opp_r, Rabs_R0. unfold Rdiv. rewrite Rmult_0_l.
-    unfold tolerance. destruct (Rlt_dec 0 (1 / 1000)); [reflexivity | lra]. }
-  rewrite Hok. f_equal. apply map_ext_in. intros [w d] Hin.
-  destruct (H _ Hin) as [Hd Hw]. cbn in Hd, Hw. subst d. cbn [fst].
-  unfold first_guess. destruct (Rgt_dec w 0); [reflexivity | lra].
+    unfold tolerance. fold (Rdiv 1 1000). destruct (Rlt_dec 0 (1 / 1000)); [reflexivity | lra]. }
+  rewrite Hok. reflexivity.
 Qed.
 
 (* ------------------------------------------------------------------ *)
